@@ -7,6 +7,7 @@ The text round trip of `Style`: `parse (render s) == s` for every well-formed `s
 namespace RichModel
 open AsciiStr
 namespace Style
+variable {T : StrTables} [hT : T.Lawful]
 
 theorem testBit_false_of_and_eq_zero {bits m : Nat} (h : bits &&& m = 0) {i : Nat} (hm : m.testBit i = true) :
     bits.testBit i = false := by
@@ -24,8 +25,9 @@ def colorElems (s : Style) : List (List Char) :=
   (match s.bgcolor with | some c => [cl! "on", c.name] | none => []) ++
   (if strTruthy s.link then [cl! "link", s.link.getD []] else [])
 
-theorem noSpace_iff {s : List Char} : noSpace s = true ↔ ∀ c ∈ s, isSpace c = false := by
-  simp [noSpace]
+omit hT in
+theorem noSpace_iff {s : List Char} : T.noSpace s = true ↔ ∀ c ∈ s, T.isSpace c = false :=
+  T.mem_noSpace
 
 theorem attrElem_nil {s : Style} {i n} (h : s.setAttributes.testBit i = false) : attrElem s i n = [] := by
   simp [attrElem, h]
@@ -83,36 +85,39 @@ theorem strElems_flat (s : Style) :
 
 /-- What the round trip needs to know about an attribute word `n` naming bit `i`. -/
 def goodAttr (p : Nat × List Char) : Bool :=
-  !p.2.isEmpty && noSpace p.2 && decide (lower p.2 = p.2) && decide (p.2 ≠ cl! "on") && decide (p.2 ≠ cl! "not") &&
+  !p.2.isEmpty && allAscii p.2 && p.2.all (fun c => !AsciiStr.isSpace c) && decide (AsciiStr.lower p.2 = p.2) &&
+    decide (p.2 ≠ cl! "on") && decide (p.2 ≠ cl! "not") &&
     decide (p.2 ≠ cl! "link") && decide (attrIndex p.2 = some p.1) && decide (p.1 < 13)
 
 theorem pairs13_good : pairs13.all goodAttr = true := by decide
 
-structure GoodAttr (i : Nat) (n : List Char) : Prop where
+structure GoodAttr (T : StrTables) (i : Nat) (n : List Char) : Prop where
   ne : n ≠ []
-  nospace : ∀ c ∈ n, isSpace c = false
-  low : lower n = n
+  nospace : ∀ c ∈ n, T.isSpace c = false
+  low : T.lower n = n
   notOn : n ≠ cl! "on"
   notNot : n ≠ cl! "not"
   notLink : n ≠ cl! "link"
   idx : attrIndex n = some i
   lt : i < 13
 
-theorem goodAttr_of {p : Nat × List Char} (h : goodAttr p = true) : GoodAttr p.1 p.2 := by
+theorem goodAttr_of {p : Nat × List Char} (h : goodAttr p = true) : GoodAttr T p.1 p.2 := by
   simp only [goodAttr, Bool.and_eq_true, Bool.not_eq_true', decide_eq_true_eq, List.isEmpty_eq_false_iff] at h
-  obtain ⟨⟨⟨⟨⟨⟨⟨h1, h2⟩, h3⟩, h4⟩, h5⟩, h6⟩, h7⟩, h8⟩ := h
-  exact ⟨h1, noSpace_iff.mp h2, h3, h4, h5, h6, h7, h8⟩
+  obtain ⟨⟨⟨⟨⟨⟨⟨⟨h1, ha⟩, h2⟩, h3⟩, h4⟩, h5⟩, h6⟩, h7⟩, h8⟩ := h
+  obtain ⟨hns, hl⟩ := T.ascii_word ha h2
+  exact ⟨h1, hns, hl h3, h4, h5, h6, h7, h8⟩
 
-theorem parseLoop_attr {v : StyleVariant} {i n} (h : GoodAttr i n) (rest : List (List Char)) (st : ParseState) :
-    parseLoop v (n :: rest) st = parseLoop v rest { st with attributes := st.attributes.set i (some true) } := by
-  rw [parseLoop.eq_def]
+omit hT in
+theorem parseLoop_attr {v : StyleVariant} {i n} (h : GoodAttr T i n) (rest : List (List Char)) (st : ParseState) :
+    parseLoopT T v (n :: rest) st = parseLoopT T v rest { st with attributes := st.attributes.set i (some true) } := by
+  rw [parseLoopT.eq_def]
   simp [h.low, h.notOn, h.notNot, h.notLink, h.idx]
 
-theorem parseLoop_not_attr {v : StyleVariant} {i n} (h : GoodAttr i n) (rest : List (List Char)) (st : ParseState) :
-    parseLoop v (cl! "not" :: n :: rest) st =
-      parseLoop v rest { st with attributes := st.attributes.set i (some false) } := by
-  rw [parseLoop.eq_def]
-  have : lower (cl! "not") = cl! "not" := by decide
+theorem parseLoop_not_attr {v : StyleVariant} {i n} (h : GoodAttr T i n) (rest : List (List Char)) (st : ParseState) :
+    parseLoopT T v (cl! "not" :: n :: rest) st =
+      parseLoopT T v rest { st with attributes := st.attributes.set i (some false) } := by
+  rw [parseLoopT.eq_def]
+  have this : T.lower (cl! "not") = cl! "not" := (T.word_facts (cl! "not") (by decide)).1
   simp [this, h.idx]
 
 theorem mem_keywords_of_attrIndex {w : List Char} {i : Nat} (h : attrIndex w = some i) : w ∈ styleKeywords := by
@@ -128,12 +133,12 @@ theorem mem_keywords_of_attrIndex {w : List Char} {i : Nat} (h : attrIndex w = s
   rintro (h | h | h | h | h | h | h | h | h | h | h | h | h | h | h | h | h | h | h | h | h | h) <;> subst h <;> simp
 
 /-- A word that `Color.parse` accepts is not a key word of the style grammar. -/
-theorem color_word_facts {v : StyleVariant} {w : List Char} {c : Color} (h : Color.parse v w = .ok c) :
+theorem color_word_facts {v : StyleVariant} {w : List Char} {c : Color} (h : Color.parseT T v w = .ok c) :
     w ≠ cl! "on" ∧ w ≠ cl! "not" ∧ w ≠ cl! "link" ∧ w ≠ cl! "none" ∧ attrIndex w = none := by
   have key : ∀ k ∈ styleKeywords, w ≠ k := by
     intro k hk hwk
     subst hwk
-    rw [keyword_not_color v hk] at h
+    rw [keyword_not_color T v hk] at h
     cases h
   refine ⟨key _ (by simp [styleKeywords]), key _ (by simp [styleKeywords]), key _ (by simp [styleKeywords]),
     key _ (by simp [styleKeywords]), ?_⟩
@@ -141,32 +146,32 @@ theorem color_word_facts {v : StyleVariant} {w : List Char} {c : Color} (h : Col
   | none => rfl
   | some i => exact absurd rfl (key w (mem_keywords_of_attrIndex hi))
 
-theorem parseLoop_color {v : StyleVariant} {w : List Char} {c : Color} (hl : lower w = w) (h : Color.parse v w = .ok c)
+theorem parseLoop_color {v : StyleVariant} {w : List Char} {c : Color} (hl : T.lower w = w) (h : Color.parseT T v w = .ok c)
     (rest : List (List Char)) (st : ParseState) :
-    parseLoop v (w :: rest) st = parseLoop v rest { st with color := some w } := by
+    parseLoopT T v (w :: rest) st = parseLoopT T v rest { st with color := some w } := by
   obtain ⟨h1, h2, h3, _, h5⟩ := color_word_facts h
-  rw [parseLoop.eq_def]
+  rw [parseLoopT.eq_def]
   simp [hl, h1, h2, h3, h5, h]
 
-theorem parseLoop_on {v : StyleVariant} {w : List Char} {c : Color} (h : Color.parse v w = .ok c)
+theorem parseLoop_on {v : StyleVariant} {w : List Char} {c : Color} (h : Color.parseT T v w = .ok c)
     (rest : List (List Char)) (st : ParseState) :
-    parseLoop v (cl! "on" :: w :: rest) st = parseLoop v rest { st with bgcolor := some w } := by
-  rw [parseLoop.eq_def]
-  have : lower (cl! "on") = cl! "on" := by decide
+    parseLoopT T v (cl! "on" :: w :: rest) st = parseLoopT T v rest { st with bgcolor := some w } := by
+  rw [parseLoopT.eq_def]
+  have this : T.lower (cl! "on") = cl! "on" := (T.word_facts (cl! "on") (by decide)).1
   simp [this, h]
 
 theorem parseLoop_link {v : StyleVariant} (w : List Char) (rest : List (List Char)) (st : ParseState) :
-    parseLoop v (cl! "link" :: w :: rest) st = parseLoop v rest { st with link := some w } := by
-  rw [parseLoop.eq_def]
-  have : lower (cl! "link") = cl! "link" := by decide
+    parseLoopT T v (cl! "link" :: w :: rest) st = parseLoopT T v rest { st with link := some w } := by
+  rw [parseLoopT.eq_def]
+  have this : T.lower (cl! "link") = cl! "link" := (T.word_facts (cl! "link") (by decide)).1
   simp [this]
 
 theorem parseLoop_none_word (v : StyleVariant) (st : ParseState) :
-    parseLoop v [cl! "none"] st = .error .styleSyntax := by
-  rw [parseLoop.eq_def]
-  have h1 : lower (cl! "none") = cl! "none" := by decide
+    parseLoopT T v [cl! "none"] st = .error .styleSyntax := by
+  rw [parseLoopT.eq_def]
+  have h1 : T.lower (cl! "none") = cl! "none" := (T.word_facts (cl! "none") (by decide)).1
   have h2 : attrIndex (cl! "none") = none := by decide
-  have h3 := keyword_not_color v (k := cl! "none") (by simp [styleKeywords])
+  have h3 := keyword_not_color T v (k := cl! "none") (by simp [styleKeywords])
   simp [h1, h2, h3]
 
 /-! ### the attribute words -/
@@ -175,29 +180,29 @@ theorem parseLoop_none_word (v : StyleVariant) (st : ParseState) :
 def applyAttr (s : Style) (K : Kwargs) (p : Nat × List Char) : Kwargs :=
   if s.setAttributes.testBit p.1 then K.set p.1 (some (s.attributes.testBit p.1)) else K
 
-theorem split_attrElem {s : Style} {i n} (h : GoodAttr i n) :
-    (attrElem s i n).flatMap split =
+theorem split_attrElem {s : Style} {i n} (h : GoodAttr T i n) :
+    (attrElem s i n).flatMap T.split =
       if s.setAttributes.testBit i then (if s.attributes.testBit i then [n] else [cl! "not", n]) else [] := by
   unfold attrElem attr
   by_cases hs : s.setAttributes.testBit i = true
   · by_cases ha : s.attributes.testBit i = true
-    · simp [hs, ha, split_word h.ne h.nospace]
-    · have : split (cl! "not " ++ n) = [cl! "not", n] := by
-        show split (cl! "not" ++ ' ' :: n) = _
-        rw [split_append_space, split_word h.ne h.nospace]
+    · simp [hs, ha, T.split_word h.ne h.nospace]
+    · have : T.split (cl! "not " ++ n) = [cl! "not", n] := by
+        show T.split (cl! "not" ++ ' ' :: n) = _
+        rw [T.split_append_space, T.split_word h.ne h.nospace, (T.word_facts (cl! "not") (by decide)).2.1]
         rfl
       simpa [hs, ha] using this
   · simp [hs]
 
 theorem parseLoop_attrs (v : StyleVariant) (s : Style) (ps : List (Nat × List Char))
-    (hps : ∀ p ∈ ps, GoodAttr p.1 p.2) (rest : List (List Char)) (st : ParseState) :
-    parseLoop v ((ps.flatMap fun p => (attrElem s p.1 p.2).flatMap split) ++ rest) st =
-      parseLoop v rest { st with attributes := ps.foldl (applyAttr s) st.attributes } := by
+    (hps : ∀ p ∈ ps, GoodAttr T p.1 p.2) (rest : List (List Char)) (st : ParseState) :
+    parseLoopT T v ((ps.flatMap fun p => (attrElem s p.1 p.2).flatMap T.split) ++ rest) st =
+      parseLoopT T v rest { st with attributes := ps.foldl (applyAttr s) st.attributes } := by
   induction ps generalizing st with
   | nil => rfl
   | cons p ps ih =>
     have hp := hps p (by simp)
-    have hr : ∀ q ∈ ps, GoodAttr q.1 q.2 := fun q hq => hps q (by simp [hq])
+    have hr : ∀ q ∈ ps, GoodAttr T q.1 q.2 := fun q hq => hps q (by simp [hq])
     simp only [List.flatMap_cons, List.append_assoc, List.foldl_cons]
     rw [split_attrElem hp]
     by_cases hs : s.setAttributes.testBit p.1 = true
@@ -300,9 +305,10 @@ theorem kwVal_kwOf (s : Style) (hsub : s.attributes &&& s.setAttributes = s.attr
 
 /-! ### well-formedness unpacked -/
 
+omit hT in
 theorem wfColor_iff {v : StyleVariant} {c : Color} :
-    wfColor v c = true ↔ (∀ ch ∈ c.name, isSpace ch = false) ∧ Color.parse v c.name = .ok c := by
-  unfold wfColor
+    wfColorT T v c = true ↔ (∀ ch ∈ c.name, T.isSpace ch = false) ∧ Color.parseT T v c.name = .ok c := by
+  unfold wfColorT
   rw [Bool.and_eq_true, noSpace_iff]
   constructor
   · rintro ⟨h1, h2⟩
@@ -317,42 +323,43 @@ theorem wfColor_iff {v : StyleVariant} {c : Color} :
     rw [h2]
     simp
 
-theorem parse_empty (v : StyleVariant) : Color.parse v [] = .error .colorParse := by
+omit hT in
+theorem parse_empty (v : StyleVariant) : Color.parseT T v [] = .error .colorParse := by
   have h : ([] : List Char) ∉ Gen.ansiColorNames.map (·.1) := by decide +kernel
-  unfold Color.parse Color.parseNorm
-  have h1 : ansiColorNumber (strip (lower [])) = none := by
+  unfold Color.parseT Color.parseNormT
+  have h0 : T.strip (T.lower []) = [] := rfl
+  rw [h0]
+  have h1 : ansiColorNumber [] = none := by
     unfold ansiColorNumber
-    have : strip (lower []) = [] := by decide
-    rw [this]
     simp only [Option.map_eq_none_iff, List.find?_eq_none]
     intro p hp hpe
     simp only [beq_iff_eq] at hpe
     exact h (List.mem_map.mpr ⟨p, hp, hpe⟩)
-  have h2 : matchReColor (strip (lower [])) = none := by decide
-  have h3 : ¬ (strip (lower []) = cl! "default") := by decide
-  simp [h1, h2, h3]
+  have h2 : matchRe T [] = none := rfl
+  simp [h1, h2]
 
 /-- A well-formed colour's name is one lower-case word that parses to the colour. -/
-theorem wfColor_facts {v : StyleVariant} {c : Color} (h : wfColor v c = true) :
-    c.name ≠ [] ∧ (∀ ch ∈ c.name, isSpace ch = false) ∧ lower c.name = c.name ∧ Color.parse v c.name = .ok c := by
+theorem wfColor_facts {v : StyleVariant} {c : Color} (h : wfColorT T v c = true) :
+    c.name ≠ [] ∧ (∀ ch ∈ c.name, T.isSpace ch = false) ∧ T.lower c.name = c.name ∧ Color.parseT T v c.name = .ok c := by
   obtain ⟨h1, h2⟩ := wfColor_iff.mp h
   refine ⟨?_, h1, ?_, h2⟩
   · intro hn
     rw [hn, parse_empty] at h2
     cases h2
-  · have := Color.parse_name h2
-    rw [strip_noSpace (lower_noSpace h1)] at this
+  · have := Color.parseT_name T h2
+    rw [T.strip_noSpace (T.lower_noSpace h1)] at this
     exact this.symm
 
-structure Wf (v : StyleVariant) (s : Style) : Prop where
+structure Wf (T : StrTables) (v : StyleVariant) (s : Style) : Prop where
   sub : s.attributes &&& s.setAttributes = s.attributes
   lt : s.setAttributes < 8192
-  color : ∀ c, s.color = some c → wfColor v c = true
-  bgcolor : ∀ c, s.bgcolor = some c → wfColor v c = true
-  link : wfLink s.link = true
+  color : ∀ c, s.color = some c → wfColorT T v c = true
+  bgcolor : ∀ c, s.bgcolor = some c → wfColorT T v c = true
+  link : wfLinkT T s.link = true
 
-theorem wf_iff {v : StyleVariant} {s : Style} : wf v s = true ↔ Wf v s := by
-  unfold wf
+omit hT in
+theorem wf_iff {v : StyleVariant} {s : Style} : wfT T v s = true ↔ Wf T v s := by
+  unfold wfT
   simp only [Bool.and_eq_true, decide_eq_true_eq]
   constructor
   · rintro ⟨⟨⟨⟨h1, h2⟩, h3⟩, h4⟩, h5⟩
@@ -370,13 +377,14 @@ theorem wf_iff {v : StyleVariant} {s : Style} : wf v s = true ↔ Wf v s := by
 
 /-! ### the colour / background / link words -/
 
-theorem wfLink_cases {l : Option (List Char)} (h : wfLink l = true) :
-    l = none ∨ ∃ w, l = some w ∧ w ≠ [] ∧ (∀ c ∈ w, isSpace c = false) ∧ strTruthy (some w) = true := by
+omit hT in
+theorem wfLink_cases {l : Option (List Char)} (h : wfLinkT T l = true) :
+    l = none ∨ ∃ w, l = some w ∧ w ≠ [] ∧ (∀ c ∈ w, T.isSpace c = false) ∧ strTruthy (some w) = true := by
   cases l with
   | none => exact Or.inl rfl
   | some w =>
     right
-    simp only [wfLink, Bool.and_eq_true, Bool.not_eq_true', List.isEmpty_eq_false_iff] at h
+    simp only [wfLinkT, Bool.and_eq_true, Bool.not_eq_true', List.isEmpty_eq_false_iff] at h
     refine ⟨w, rfl, h.1, noSpace_iff.mp h.2, ?_⟩
     cases w with
     | nil => exact absurd rfl h.1
@@ -386,8 +394,8 @@ theorem wfLink_cases {l : Option (List Char)} (h : wfLink l = true) :
 def finalState (s : Style) : ParseState :=
   { color := s.color.map (·.name), bgcolor := s.bgcolor.map (·.name), attributes := kwOf s, link := s.link }
 
-theorem parseLoop_colorElems {v : StyleVariant} {s : Style} (h : Wf v s) (K : Kwargs) :
-    parseLoop v ((colorElems s).flatMap split) { attributes := K } =
+theorem parseLoop_colorElems {v : StyleVariant} {s : Style} (h : Wf T v s) (K : Kwargs) :
+    parseLoopT T v ((colorElems s).flatMap T.split) { attributes := K } =
       .ok { color := s.color.map (·.name), bgcolor := s.bgcolor.map (·.name), attributes := K, link := s.link } := by
   unfold colorElems
   simp only [List.flatMap_append]
@@ -397,67 +405,67 @@ theorem parseLoop_colorElems {v : StyleVariant} {s : Style} (h : Wf v s) (K : Kw
     cases hb : s.bgcolor with
     | none =>
       rcases hl with hl | ⟨w, hl, hne, hns, ht⟩
-      · simp [hl, strTruthy, parseLoop]
+      · simp [hl, strTruthy, parseLoopT]
       · simp only [ht, if_true, hl, Option.getD_some, List.flatMap_cons, List.flatMap_nil, List.nil_append, List.append_nil]
-        rw [split_word hne hns, show split (cl! "link") = [cl! "link"] by decide]
+        rw [T.split_word hne hns, (T.word_facts (cl! "link") (by decide)).2.1]
         simp only [List.cons_append, List.nil_append]
-        rw [parseLoop_link]; simp [parseLoop]
+        rw [parseLoop_link]; simp [parseLoopT]
     | some b =>
       obtain ⟨bne, bns, _, bp⟩ := wfColor_facts (h.bgcolor b hb)
       rcases hl with hl | ⟨w, hl, hne, hns, ht⟩
       · simp only [hl, strTruthy, List.flatMap_cons, List.flatMap_nil, List.nil_append, List.append_nil]
-        rw [split_word bne bns, show split (cl! "on") = [cl! "on"] by decide]
+        rw [T.split_word bne bns, (T.word_facts (cl! "on") (by decide)).2.1]
         simp only [List.cons_append, List.nil_append, Bool.false_eq_true, if_false, List.flatMap_nil, List.append_nil]
-        rw [parseLoop_on bp]; simp [parseLoop]
+        rw [parseLoop_on bp]; simp [parseLoopT]
       · simp only [ht, if_true, hl, Option.getD_some, List.flatMap_cons, List.flatMap_nil, List.nil_append, List.append_nil]
-        rw [split_word hne hns, split_word bne bns, show split (cl! "link") = [cl! "link"] by decide,
-          show split (cl! "on") = [cl! "on"] by decide]
+        rw [T.split_word hne hns, T.split_word bne bns, (T.word_facts (cl! "link") (by decide)).2.1,
+          (T.word_facts (cl! "on") (by decide)).2.1]
         simp only [List.cons_append, List.nil_append]
-        rw [parseLoop_on bp, parseLoop_link]; simp [parseLoop]
+        rw [parseLoop_on bp, parseLoop_link]; simp [parseLoopT]
   | some c =>
     obtain ⟨cne, cns, clow, cp⟩ := wfColor_facts (h.color c hc)
     cases hb : s.bgcolor with
     | none =>
       rcases hl with hl | ⟨w, hl, hne, hns, ht⟩
       · simp only [hl, strTruthy, List.flatMap_cons, List.flatMap_nil, List.append_nil]
-        rw [split_word cne cns]
+        rw [T.split_word cne cns]
         simp only [Bool.false_eq_true, if_false, List.flatMap_nil, List.append_nil]
-        rw [parseLoop_color clow cp]; simp [parseLoop]
+        rw [parseLoop_color clow cp]; simp [parseLoopT]
       · simp only [ht, if_true, hl, Option.getD_some, List.flatMap_cons, List.flatMap_nil, List.append_nil]
-        rw [split_word hne hns, split_word cne cns, show split (cl! "link") = [cl! "link"] by decide]
+        rw [T.split_word hne hns, T.split_word cne cns, (T.word_facts (cl! "link") (by decide)).2.1]
         simp only [List.cons_append, List.nil_append]
-        rw [parseLoop_color clow cp, parseLoop_link]; simp [parseLoop]
+        rw [parseLoop_color clow cp, parseLoop_link]; simp [parseLoopT]
     | some b =>
       obtain ⟨bne, bns, _, bp⟩ := wfColor_facts (h.bgcolor b hb)
       rcases hl with hl | ⟨w, hl, hne, hns, ht⟩
       · simp only [hl, strTruthy, List.flatMap_cons, List.flatMap_nil, List.append_nil]
-        rw [split_word bne bns, split_word cne cns, show split (cl! "on") = [cl! "on"] by decide]
+        rw [T.split_word bne bns, T.split_word cne cns, (T.word_facts (cl! "on") (by decide)).2.1]
         simp only [List.cons_append, List.nil_append, Bool.false_eq_true, if_false, List.flatMap_nil, List.append_nil]
-        rw [parseLoop_color clow cp, parseLoop_on bp]; simp [parseLoop]
+        rw [parseLoop_color clow cp, parseLoop_on bp]; simp [parseLoopT]
       · simp only [ht, if_true, hl, Option.getD_some, List.flatMap_cons, List.flatMap_nil, List.append_nil]
-        rw [split_word hne hns, split_word bne bns, split_word cne cns, show split (cl! "link") = [cl! "link"] by decide,
-          show split (cl! "on") = [cl! "on"] by decide]
+        rw [T.split_word hne hns, T.split_word bne bns, T.split_word cne cns, (T.word_facts (cl! "link") (by decide)).2.1,
+          (T.word_facts (cl! "on") (by decide)).2.1]
         simp only [List.cons_append, List.nil_append]
-        rw [parseLoop_color clow cp, parseLoop_on bp, parseLoop_link]; simp [parseLoop]
+        rw [parseLoop_color clow cp, parseLoop_on bp, parseLoop_link]; simp [parseLoopT]
 
-theorem pairs13_GoodAttr : ∀ p ∈ pairs13, GoodAttr p.1 p.2 :=
+theorem pairs13_GoodAttr : ∀ p ∈ pairs13, GoodAttr T p.1 p.2 :=
   fun p hp => goodAttr_of (List.all_eq_true.mp pairs13_good p hp)
 
 /-- The loop of `parse` on the words of `render s`. -/
-theorem parseLoop_render {v : StyleVariant} {s : Style} (h : Wf v s) :
-    parseLoop v (split (joinSpace (strElems s))) {} = .ok (finalState s) := by
-  rw [split_joinSpace, strElems_flat, List.flatMap_append, List.flatMap_assoc]
+theorem parseLoop_render {v : StyleVariant} {s : Style} (h : Wf T v s) :
+    parseLoopT T v (T.split (joinSpace (strElems s))) {} = .ok (finalState s) := by
+  rw [T.split_joinSpace, strElems_flat, List.flatMap_append, List.flatMap_assoc]
   rw [parseLoop_attrs v s pairs13 pairs13_GoodAttr]
   exact parseLoop_colorElems h _
 
-theorem init_finalState {v : StyleVariant} {s : Style} (h : Wf v s) :
-    init v ((finalState s).color.map .str) ((finalState s).bgcolor.map .str) (finalState s).attributes (finalState s).link =
+theorem init_finalState {v : StyleVariant} {s : Style} (h : Wf T v s) :
+    initT T v ((finalState s).color.map .str) ((finalState s).bgcolor.map .str) (finalState s).attributes (finalState s).link =
       .ok { color := s.color, bgcolor := s.bgcolor, attributes := s.attributes, setAttributes := s.setAttributes,
             link := s.link, hash := s.fieldsKey,
             isNull := !(s.setAttributes ≠ 0 || s.color.isSome || s.bgcolor.isSome || strTruthy s.link),
             styleDef := none } := by
-  have hc : ∀ c, s.color = some c → Color.parse v c.name = .ok c := fun c hc => (wfColor_facts (h.color c hc)).2.2.2
-  have hb : ∀ c, s.bgcolor = some c → Color.parse v c.name = .ok c := fun c hc => (wfColor_facts (h.bgcolor c hc)).2.2.2
+  have hc : ∀ c, s.color = some c → Color.parseT T v c.name = .ok c := fun c hc => (wfColor_facts (h.color c hc)).2.2.2
+  have hb : ∀ c, s.bgcolor = some c → Color.parseT T v c.name = .ok c := fun c hc => (wfColor_facts (h.bgcolor c hc)).2.2.2
   have hset := kwSet_kwOf s h.lt
   have hval := kwVal_kwOf s h.sub h.lt
   have hattr : (if s.setAttributes = 0 then 0 else kwVal (kwOf s)) = s.attributes := by
@@ -468,16 +476,21 @@ theorem init_finalState {v : StyleVariant} {s : Style} (h : Wf v s) :
       rw [h0] at this
       simpa using this
     · rfl
-  unfold init finalState
+  have hsl : storedLink v s.link = s.link := by
+    unfold storedLink linkVal
+    rcases wfLink_cases h.link with hl | ⟨w, hl, _, _, ht⟩
+    · simp [hl, strTruthy]
+    · simp [hl, ht]
+  unfold initT finalState
   cases hcs : s.color with
   | none =>
     cases hbs : s.bgcolor with
-    | none => simp [fieldsKey, hcs, hbs, hset, hattr]
-    | some b => simp [fieldsKey, hcs, hbs, makeColor, hb b hbs, Except.map, hset, hattr]
+    | none => simp [fieldsKey, hcs, hbs, hset, hattr, hsl]
+    | some b => simp [fieldsKey, hcs, hbs, makeColorT, hb b hbs, Except.map, hset, hattr, hsl]
   | some c =>
     cases hbs : s.bgcolor with
-    | none => simp [fieldsKey, hcs, hbs, makeColor, hc c hcs, Except.map, hset, hattr]
-    | some b => simp [fieldsKey, hcs, hbs, makeColor, hc c hcs, hb b hbs, Except.map, hset, hattr]
+    | none => simp [fieldsKey, hcs, hbs, makeColorT, hc c hcs, Except.map, hset, hattr, hsl]
+    | some b => simp [fieldsKey, hcs, hbs, makeColorT, hc c hcs, hb b hbs, Except.map, hset, hattr, hsl]
 
 theorem joinSpace_eq_nil {es : List (List Char)} (hne : ∀ e ∈ es, e ≠ []) (h : joinSpace es = []) : es = [] := by
   cases es with
@@ -491,9 +504,9 @@ theorem joinSpace_eq_nil {es : List (List Char)} (hne : ∀ e ∈ es, e ≠ []) 
       rw [this] at h
       simp at h
 
-theorem parse_none (v : StyleVariant) : parse v (cl! "none") = .ok Style.null := by
-  unfold parse
-  have : strip (cl! "none") = cl! "none" := by decide
+theorem parse_none (v : StyleVariant) : parseT T v (cl! "none") = .ok Style.null := by
+  unfold parseT
+  have : T.strip (cl! "none") = cl! "none" := T.strip_noSpace (T.word_facts (cl! "none") (by decide)).2.2
   simp [this]
 
 /-- The object `parse` builds from the definition of `s`: the fields of `s`, a fresh hash and `_null`
@@ -505,23 +518,23 @@ def reparsed (s : Style) : Style :=
     styleDef := none }
 
 /-- Round trip, exact form: a non-empty computed definition parses to `reparsed s`. -/
-theorem parse_render_nonempty {v : StyleVariant} {s : Style} (hwf : Wf v s)
-    (hd : (joinSpace (strElems s)).isEmpty = false) : parse v (joinSpace (strElems s)) = .ok (reparsed s) := by
+theorem parse_render_nonempty {v : StyleVariant} {s : Style} (hwf : Wf T v s)
+    (hd : (joinSpace (strElems s)).isEmpty = false) : parseT T v (joinSpace (strElems s)) = .ok (reparsed s) := by
   have hloop := parseLoop_render (v := v) hwf
-  have hnone : strip (joinSpace (strElems s)) ≠ cl! "none" := by
+  have hnone : T.strip (joinSpace (strElems s)) ≠ cl! "none" := by
     intro hs
-    have := split_of_strip_eq hs (by decide) (by decide)
+    have := T.split_of_strip_eq hs (by decide) (T.word_facts (cl! "none") (by decide)).2.2
     rw [this, parseLoop_none_word] at hloop
     cases hloop
-  have hbeq : (strip (joinSpace (strElems s)) == cl! "none") = false := by simpa using hnone
-  unfold parse
+  have hbeq : (T.strip (joinSpace (strElems s)) == cl! "none") = false := by simpa using hnone
+  unfold parseT
   simp only [hbeq, hd, Bool.or_self, Bool.false_eq_true, if_false, hloop]
   rw [init_finalState hwf]
   rfl
 
 /-- **Round trip**: the definition `__str__` computes for a well-formed style parses back to an equal style. -/
-theorem parse_render {v : StyleVariant} {s : Style} (hwf : Wf v s) :
-    ∃ s', parse v (render s) = .ok s' ∧ eq s' s = true := by
+theorem parse_render {v : StyleVariant} {s : Style} (hwf : Wf T v s) :
+    ∃ s', parseT T v (render s) = .ok s' ∧ eq s' s = true := by
   unfold render
   by_cases hd : (joinSpace (strElems s)).isEmpty = true
   · -- nothing to say: "none"
@@ -530,8 +543,8 @@ theorem parse_render {v : StyleVariant} {s : Style} (hwf : Wf v s) :
     have hloop := parseLoop_render (v := v) hwf
     have hnil : joinSpace (strElems s) = [] := by simpa using hd
     rw [hnil] at hloop
-    have : split [] = [] := rfl
-    rw [this, parseLoop.eq_def] at hloop
+    have : T.split [] = [] := rfl
+    rw [this, parseLoopT.eq_def] at hloop
     simp only [Except.ok.injEq] at hloop
     have h1 := congrArg ParseState.color hloop
     have h2 := congrArg ParseState.bgcolor hloop
